@@ -18,6 +18,11 @@ type Unit struct {
 	Env    bool
 	Check  func(x *Exec) []Violation
 	Goal   func(x *Exec) []string
+	// Required goals must each be witnessed by at least one explored execution (exists-style
+	// clauses; decided by vcheck over all shards of the unit, only when exploration was exhaustive)
+	Required []string
+	ReqProp  string
+	ReqMsg   string
 	// Post runs after exploration (exists-style clauses, outcome-set comparisons).
 	Post func(e *Explorer) []Violation
 	// Custom replaces the schedule explorer altogether (sequential / enumerative units).
@@ -31,6 +36,9 @@ type UnitResult struct {
 	Violations []Violation    `json:"violations"`
 	SigCounts  map[string]int `json:"sig_counts"`
 	Goals      []string       `json:"goals"`
+	Required   []string       `json:"required_goals,omitempty"`
+	ReqProp    string         `json:"req_prop,omitempty"`
+	ReqMsg     string         `json:"req_msg,omitempty"`
 	HarnessErr string         `json:"harness_error,omitempty"`
 	Outcomes   []string       `json:"outcomes,omitempty"`
 	Extra      map[string]any `json:"extra,omitempty"`
@@ -62,6 +70,7 @@ func RunUnit(u *Unit, shard, nshards int, deadline time.Time, boundOverride int)
 	for g := range e.Goals {
 		res.Goals = append(res.Goals, g)
 	}
+	res.Required, res.ReqProp, res.ReqMsg = u.Required, u.ReqProp, u.ReqMsg
 	if u.Post != nil && e.HarnessErr == "" && e.Stats.Exhaustive {
 		for _, v := range u.Post(e) {
 			v.Scenario = u.Name
